@@ -202,7 +202,7 @@ Theorem C16_gen_Report_loop_decisions :
   loop true true c (r :: rs') total acc =
   match g_v2_report_body (r_eligerr r) (r_elig r) (r_deterr r) (Z.of_N total) (Z.of_N mx) (Z.of_N (v_limit c))
                          (Z.of_nat (length (acc ++ [r]))) (v_batch c) with
-  | ([], Cont) => loop true true c rs' total acc
+  | ([], Fall) => loop true true c rs' total acc
   | ([1; 2], Brk) => acc ++ [r]
   | ([1; 2], Fall) => loop true true c rs' (addw true total mx) (acc ++ [r])
   | _ => acc
@@ -229,7 +229,7 @@ Print Assumptions C16_gen_GetMedian_steps.
 Theorem C16_gen_ObservationsToUpkeepKeys_loop :
   forall (undecodable invalid : bool) n_ids limit,
   g_v2_obs2keys_body undecodable invalid n_ids n_ids limit =
-  if undecodable || invalid then ([1], Cont)
+  if undecodable || invalid then ([1], Fall)
   else if 0 <? n_ids then (if limit <? n_ids then ([2; 3; 4], Fall) else ([2; 4], Fall)) else ([2], Fall).
 Proof. exact gen_v2_obs2keys_body. Qed.
 Print Assumptions C16_gen_ObservationsToUpkeepKeys_loop.
@@ -254,7 +254,7 @@ Print Assumptions C16_gen_Observation_steps.
 (* polling observer Observe, loop body: an id is listed unless its key is pending (or the coordinator fails) *)
 Theorem C16_gen_Observe_filter :
   forall pending err : bool,
-  g_v2_Observe_body pending err = if pending || err then ([], Cont) else ([1], Fall).
+  g_v2_Observe_body pending err = if pending || err then ([], Fall) else ([1], Fall).
 Proof. exact gen_v2_Observe_body. Qed.
 Print Assumptions C16_gen_Observe_filter.
 
